@@ -101,7 +101,7 @@ def cases(tier, seed, shard, nshards):
                     k += 1
                     if k % nshards != shard:
                         continue
-                    if tier == "quick" and (hash_stable(e["label"] + lab) + slot) % 8:
+                    if tier == "quick" and (hash_stable(e["label"] + lab) + slot) % 2:
                         continue
                     yield {"k": "operand", "d": d, "outer": e["label"], "slot": slot, "label": lab}
     for d in DIALECT_CLASSES:
